@@ -22,6 +22,7 @@ import (
 	"strconv"
 	"strings"
 	"sync"
+	"sync/atomic"
 	"time"
 
 	apiErr "github.com/AliyunContainerService/terway/pkg/aliyun/client/errors"
@@ -122,6 +123,15 @@ func (s *schedLock) grant(pick func(n int) int) bool {
 	}
 	i := pick(len(s.waiters))
 	wt := s.waiters[i]
+	if wt.g.label == "sync" {
+		// a sync that comes back for the lock a second time (it would have to have given it up in between) can be held
+		// back for a moment, so that a cloud answer arriving meanwhile is recorded first
+		if n := atomic.LoadInt32(&s.w.syncRegions); n >= 1 && atomic.LoadInt32(&s.w.holdSync) == 1 {
+			atomic.AddInt32(&s.w.syncHeld, 1)
+			return false
+		}
+		atomic.AddInt32(&s.w.syncRegions, 1)
+	}
 	s.waiters = append(s.waiters[:i], s.waiters[i+1:]...)
 	s.held = true
 	s.cur = wt.g
@@ -442,46 +452,48 @@ type pReqInfo struct {
 }
 
 type pWorld struct {
-	c          *Ctx
-	r          *Rng
-	cfgCap     int
-	batch      int
-	en4, en6   bool
-	nslots     int
-	maxIdles   int
-	minIdles   int
-	total      int
-	locks      []*schedLock
-	locals     []*eni.Local
-	mgr        *eni.Manager
-	cloud      *pCloud
-	evMu       sync.Mutex
-	events     []pEvent
-	kickCh     chan struct{}
-	roleMu     sync.Mutex
-	roles      map[int64]pRole // gid -> what the goroutine is doing for the harness
-	gidSlot    map[int64]int   // worker gid -> slot (from its regions)
-	allocRid   map[int64]int   // gid that ran Manager.Allocate -> request number
-	reqPtr     map[uintptr]int
-	ridDead    map[int]bool
-	reqs       map[int]*pReqInfo
-	nextRid    int
-	held       map[string]map[string][]int // pod -> eni -> ips (from replies)
-	heldBy     map[string]string           // "eni:ip" -> pod
-	everUsed   map[int]bool
-	goneWhy    map[string]string  // "eni:ip" -> remote | unassigned
-	goneSeen   map[string]bool    // a sync has applied a cloud listing without it since
-	loadSaw    map[int64][]string // sync goroutine -> addresses its metadata read missed (applied at its next lock region)
-	seenSeq    map[string]int     // "eni:ip" -> event number of the sync region that applied the removal
-	bindSeq    map[string]int     // "eni:ip" -> event number of the lock region that last gave it a new owner
-	lastOwner  map[string]string
-	lastStatus map[int]string
-	loadFails  bool
-	stop       chan struct{}
-	lines      []string
-	viol       [][2]string
-	balancing  bool
-	focus      string
+	c                     *Ctx
+	r                     *Rng
+	cfgCap                int
+	batch                 int
+	en4, en6              bool
+	nslots                int
+	maxIdles              int
+	minIdles              int
+	total                 int
+	locks                 []*schedLock
+	locals                []*eni.Local
+	mgr                   *eni.Manager
+	cloud                 *pCloud
+	evMu                  sync.Mutex
+	events                []pEvent
+	kickCh                chan struct{}
+	syncHeld              int32
+	syncRegions, holdSync int32 // lock regions of the sync under way; whether a further one is held back
+	roleMu                sync.Mutex
+	roles                 map[int64]pRole // gid -> what the goroutine is doing for the harness
+	gidSlot               map[int64]int   // worker gid -> slot (from its regions)
+	allocRid              map[int64]int   // gid that ran Manager.Allocate -> request number
+	reqPtr                map[uintptr]int
+	ridDead               map[int]bool
+	reqs                  map[int]*pReqInfo
+	nextRid               int
+	held                  map[string]map[string][]int // pod -> eni -> ips (from replies)
+	heldBy                map[string]string           // "eni:ip" -> pod
+	everUsed              map[int]bool
+	goneWhy               map[string]string  // "eni:ip" -> remote | unassigned
+	goneSeen              map[string]bool    // a sync has applied a cloud listing without it since
+	loadSaw               map[int64][]string // sync goroutine -> addresses its metadata read missed (applied at its next lock region)
+	seenSeq               map[string]int     // "eni:ip" -> event number of the sync region that applied the removal
+	bindSeq               map[string]int     // "eni:ip" -> event number of the lock region that last gave it a new owner
+	lastOwner             map[string]string
+	lastStatus            map[int]string
+	loadFails             bool
+	stop                  chan struct{}
+	lines                 []string
+	viol                  [][2]string
+	balancing             bool
+	focus                 string
 }
 
 func (w *pWorld) record(e pEvent) {
